@@ -297,7 +297,8 @@ class Env:
         tr = d + ".trace"
         cmd = ["strace", "-f", "-o", tr, "-s", "16777216", "-xx", "-e", "trace=" + TRACE_SET]
         if inject:
-            cmd += ["-e", "inject=" + inject]
+            for one in inject.split("&&"):      # several injections in one run: "a:error=E:when=k&&b:signal=SIGKILL:when=m"
+                cmd += ["-e", "inject=" + one]
         cmd += [VH, "C13", "scenario", strategy, d, self.aux]
         p = subprocess.run(cmd, env=self.env, stdout=subprocess.PIPE, stderr=subprocess.PIPE, timeout=120)
         res = {"rc": p.returncode, "stderr": p.stderr.decode("utf-8", "replace")[-1500:], "before": before, "after": listing(d),
@@ -449,11 +450,18 @@ def run(ctx):
                 jobs.append(("error", s, dm, "%s:error=ENOSPC:when=%d" % (ops[j][2], ops[j][3]), j))
             for j in ren:
                 jobs.append(("error", s, dm, "%s:error=EXDEV:when=%d" % (ops[j][2], ops[j][3]), j))
+            # the temporary file cannot be created (name too long for the file system, directory not writable): a handled
+            # error that leaves the destination alone, or - if the code falls back to another way of writing - still an
+            # atomic one
+            for j in [j for j in muts if ops[j][0][0] == "O" and TMP_RE.search(ops[j][0][1])][:1]:
+                for e in ("ENAMETOOLONG", "EACCES"):
+                    jobs.append(("error", s, dm, "%s:error=%s:when=%d" % (ops[j][2], e, ops[j][3]), j))
             if thorough:
                 for j in [j for j in muts if ops[j][0][0] == "X"]:
                     jobs.append(("error", s, dm, "%s:error=EIO:when=%d" % (ops[j][2], ops[j][3]), j))
     if only is not None:
-        want = {(k, f["strategy"], f["dest"], f.get("inject")) for k, f in only}
+        # a replayed double injection ("error&&kill") is found again through its first half: the planned error run
+        want = {(k, f["strategy"], f["dest"], (f.get("inject") or "").split("&&")[0] or None) for k, f in only}
         jobs = [jb for jb in jobs if (jb[0], jb[1], jb[2], jb[3]) in want]
 
     # ---- (b)+(d) crash sweep and error injection: real runs
@@ -521,6 +529,26 @@ def run(ctx):
                 thm = "Relic.Props.C13.abort_path_clean"
             if r["rc"] == 0 and not bad and r["after"].get(DEST) != new:
                 bad.append("success-reported-but-destination-not-new")
+            if r["rc"] == 0 and not ctl and not bad and (m.get("shape") != "1" or m.get("bad", "-") != "-"):
+                # the run got past the injected error by writing some other way: that way must be atomic too
+                # search for the failing state: the same run, killed inside the second content write of the fallback
+                wcalls = [t for t in tr["ops"] if t[0][0] in ("W", "P")]
+                if len(wcalls) >= 2:
+                    _, _, wname, wk = wcalls[1]
+                    r2 = env.run(s, dm, inject=inject + "&&%s:signal=SIGKILL:when=%d" % (wname, wk))
+                    bad2 = prop_violations(r2["before"], r2["after"], new)
+                    if bad2:
+                        findings.append(Finding("counterexample", TIE, "Relic.Props.C13.commit_atomic",
+                                                op + "&&%s:signal=SIGKILL:when=%d" % (wname, wk),
+                                                "dest in {old, new} at every instant, also on the path taken after the injected error",
+                                                "%s; directory: %s" % (" ".join(bad2), show(r2["after"])),
+                                                "killed inside the write that follows the injected error"))
+                        continue
+                findings.append(Finding("broken-tie", TIE, "Relic.Props.C13.trace_shape_sound", op,
+                                        "atomicShape = true on the trace of the run that worked around the injected error",
+                                        "shape=%s first-bad-prefix=%s calls %s" % (m.get("shape"), m.get("bad"), "".join(t[0] for t in got)),
+                                        "after the injected error the output was written in a way that is not old-or-new at every instant"))
+                continue
         if ctl:
             if bad:
                 flagged_controls.add((sd, "real"))
